@@ -271,7 +271,7 @@ class Analysis:
         return lost
 
     def _collect_defs(self):
-        counts, defs = {}, {}
+        counts, defs, alld = {}, {}, {}
         for bi, blk in enumerate(self.b.blocks):
             for si, st in enumerate(blk["stmts"]):
                 if st["k"] in ("assign", "setdiscr"):
@@ -279,6 +279,7 @@ class Analysis:
                     if k:
                         counts[k] = counts.get(k, 0) + 1
                         defs[k] = (bi, si, st.get("r") or {"k": "setdiscr"})
+                        alld.setdefault(k, []).append(defs[k])
                         b = base_local(k)
                         if b != k:
                             counts[b] = counts.get(b, 0) + 1
@@ -289,6 +290,7 @@ class Analysis:
                     counts[k] = counts.get(k, 0) + 1
                     defs[k] = (bi, -1, {"k": "callret", "t": t})
         self.single = {k: defs[k] for k, c in counts.items() if c == 1 and k in defs}
+        self.alldefs = alld
         self.defcount = counts
         self.quotients = {}     # symbol of floor(a / c) -> (linear form a, constant c > 0)
 
@@ -717,7 +719,59 @@ class Analysis:
         k = key_of(p)
         d = self.single.get(k)
         if not d:
+            return self._resolve_conjunction(k, bi, depth)
+        return self._resolve_def(d, bi, depth)
+
+    def _resolve_conjunction(self, k, bi, depth):
+        """`let c = a && b;` lowers to two assignments of the local: `c = false` where `a` failed and `c = <b>` where
+        it held.  When c is true the second one ran: both `a` (the edge into that block) and `b` hold."""
+        ds = self.alldefs.get(k) or []
+        if len(ds) != 2 or self.defcount.get(k, 0) != 2:
             return None
+
+        def is_false(r):
+            return r.get("k") == "use" and isinstance(r.get("o"), dict) and isinstance(r["o"].get("const"), dict) and r["o"]["const"].get("ty") == "bool" and r["o"]["const"].get("v") in (0, False)
+        fl = [d for d in ds if is_false(d[2])]
+        ot = [d for d in ds if not is_false(d[2])]
+        if len(fl) != 1 or len(ot) != 1:
+            return None
+        dbi, dsi, r = ot[0]
+        tgo = self.b.blocks[dbi]["term"]
+        if not (tgo["k"] == "goto" and tgo["target"] == bi):
+            return None     # only when the conjunction is consumed right where its two assignments join
+        second = self._resolve_def(ot[0], bi, depth + 1)
+        if second is None:
+            return None
+        # the first conjunct: the conditional edge through which the block of the second assignment is entered
+        cur = dbi
+        chain = [dbi]
+        preds = [q for q in self.b.pred[cur]]
+        hops = 0
+        while len(preds) == 1 and self.b.blocks[preds[0]]["term"]["k"] in ("goto", "drop", "call", "assert") and hops < 8:
+            cur = preds[0]
+            chain.insert(0, cur)
+            preds = [q for q in self.b.pred[cur]]
+            hops += 1
+        if len(preds) != 1:
+            return None
+        pt = self.b.blocks[preds[0]]["term"]
+        if not (pt["k"] == "switch" and pt.get("dty") == "bool" and len(pt["values"]) == 1) or (pt["targets"][0] == cur and pt["otherwise"] == cur):
+            return None
+        first = self._resolve_bool(pt["discr"], preds[0], depth + 1)
+        if first is None:
+            return None
+        truth1 = (pt["targets"][0] == cur and bool(pt["values"][0])) or (pt["otherwise"] == cur and not bool(pt["values"][0]))
+        # the temporaries the second conjunct compares are computed in `chain` (straight-line code from single-def
+        # inputs): they are recomputed when the conjunction is used, because the join with the `false` branch forgot them
+        for cb in chain:
+            for st_ in self.b.blocks[cb]["stmts"]:
+                if st_["k"] == "assign":
+                    kk = key_of(st_["p"])
+                    if kk != k and (kk is None or self.defcount.get(base_local(kk), 0) > 1):
+                        return None
+        return ("conj", ((first, truth1), (second, True)), tuple(chain), True)
+
+    def _resolve_def(self, d, bi, depth):
         dbi, dsi, r = d
         if r["k"] == "bin" and r["op"] in NEG:
             if not self._stable(bi, dbi, dsi, [r["a"], r["b"]]):
@@ -769,6 +823,19 @@ class Analysis:
             return True
         if cond[0] == "cmp":
             return self.refine_cmp(st, cond[1], cond[2], cond[3], cond[4], truth)
+        if cond[0] == "conj":
+            truth = truth if cond[3] else not truth
+            if not truth:
+                return True         # a false conjunction says nothing about either part
+            (c1, t1), (c2, t2) = cond[1]
+            if not self.apply_cond(st, c1, t1):
+                return False
+            for cb in cond[2] or ():
+                self.block_transfer(cb, st)
+                tt = self.b.blocks[cb]["term"]
+                if tt["k"] == "call":
+                    self._call_effect(st, tt)
+            return self.apply_cond(st, c2, t2)
         if cond[0] == "inrange":
             (x, lo, hi), positive = cond[1], cond[3]
             truth = truth if positive else not truth
